@@ -586,8 +586,26 @@ agraph ({xdecl}, {ydecl}{extra_in}) => ({out_t}[?,?] z)
 
 
 def fam_reshape_matmul(rng: Rng) -> str:
-    """Reshape -> MatMul -> Reshape where the reshapes only add/remove broadcast dims (_broadcast_to_matmul.py)."""
-    v = _variant(rng, [("two_reshapes", 3), ("one_reshape", 2), ("wrong_final", 1), ("symbolic", 1)])
+    """Reshape -> MatMul -> Reshape where the reshapes only add/remove broadcast dims (_broadcast_to_matmul.py), incl.
+    1-D (vector) operands on either side, which MatMul treats specially."""
+    v = _variant(rng, [("two_reshapes", 3), ("one_reshape", 2), ("vec_second", 2), ("vec_first", 2), ("col_second", 1), ("wrong_final", 1), ("symbolic", 1)])
+    if v in ("vec_second", "vec_first", "col_second"):
+        if v == "vec_second":     # [2,3,4,5] x [5] -> [2,3,4]
+            a_decl, b_decl, sa, sb, sc = "float[2,3,4,5] a", "float[5] b", "2, 3, 4, 5", "5", "2, 3, 4"
+        elif v == "vec_first":    # [4] x [2,3,4,5] -> [2,3,5]
+            a_decl, b_decl, sa, sb, sc = "float[4] a", "float[2,3,4,5] b", "4", "2, 3, 4, 5", "2, 3, 5"
+        else:                     # [2,3,4,5] x [5,1] -> reshaped to [2,3,4]: the reshape is needed
+            a_decl, b_decl, sa, sb, sc = "float[2,3,4,5] a", "float[5,1] b", "2, 3, 4, 5", "5, 1", "2, 3, 4"
+        n = lambda t: len(t.split(","))
+        return f"""<ir_version: 10, opset_import: ["" : 20]>
+agraph ({a_decl}, {b_decl}) => (float[?,?,?] y)
+<int64[{n(sa)}] sa = {{{sa}}}, int64[{n(sb)}] sb = {{{sb}}}, int64[{n(sc)}] sc = {{{sc}}}>
+{{
+   ra = Reshape(a, sa)
+   rb = Reshape(b, sb)
+   m = MatMul(ra, rb)
+   y = Reshape(m, sc)
+}}"""
     a_decl = "float[2,3,4] a" if v != "symbolic" else "float[B,3,4] a"
     final = "2, 3, 5" if v != "wrong_final" else "6, 5"
     if v == "one_reshape":
@@ -642,7 +660,7 @@ FAMILIES = {
 
 # families whose members walk through declared variants: a batch takes one member per variant (capped), so that every
 # special path of the rule's check() is in every batch; other families vary only in parameters and get 3 members
-N_VARIANTS = {"hardswish": 7, "conv_affine": 5, "expand_binary": 5, "reshape_matmul": 4, "scatter_nd": 4, "rms_norm": 4, "pad_conv": 12, "reshape_reshape": 8, "fold_chain": 9, "slice_split": 7, "const_if": 7}
+N_VARIANTS = {"hardswish": 7, "conv_affine": 5, "expand_binary": 5, "reshape_matmul": 7, "scatter_nd": 4, "rms_norm": 4, "pad_conv": 12, "reshape_reshape": 8, "fold_chain": 9, "slice_split": 7, "const_if": 7}
 
 
 def members_per_batch(family: str, default: int, cap: int = 9) -> int:
